@@ -87,3 +87,75 @@ Theorem C01_backends_agree_on_failed_assert : forall pr M fuel out,
   (exists fv, run_vm fv M = VError EAssert out) /\ (exists fn, run_nat RtoL fn pr = NFaulted NFAssert out).
 Proof. exact backends_agree_assert. Qed.
 Print Assumptions C01_backends_agree_on_failed_assert.
+
+(* ---- accepted programs: the "never stuck" hypothesis follows from the reference type checker ---- *)
+From NV Require Import Lang.Types Back.VmSimExamples Back.NatTypeSound Back.BackendsAgreeTyped.
+
+(* type soundness does not depend on the order in which C evaluates the arguments of a call: a program the reference
+   checker accepts never gets stuck in the native model, whatever the order and the budget *)
+Theorem C01_native_never_stuck : forall p, wt p = true -> forall ord fuel, run_nat ord fuel p <> NStuckO.
+Proof. exact nat_wt_sound. Qed.
+Print Assumptions C01_native_never_stuck.
+
+Theorem C01_backends_agree_typed : forall pr M fuel out ex,
+  wt pr = true -> compile_program pr = Some M -> small_program pr -> fuel_small fuel -> depth_ok M ->
+  se_program pr = true -> cc_refuses pr = false ->
+  run_ref fuel pr = Done out ex ->
+  (exists fv, run_vm fv M = VDone out ex) /\ (exists fn, run_nat RtoL fn pr = NDone out ex).
+Proof. exact backends_agree_typed. Qed.
+Print Assumptions C01_backends_agree_typed.
+
+Theorem C01_backends_agree_on_failed_assert_typed : forall pr M fuel out,
+  wt pr = true -> compile_program pr = Some M -> small_program pr -> fuel_small fuel -> depth_ok M ->
+  se_program pr = true -> cc_refuses pr = false ->
+  run_ref fuel pr = Faulted FAssert out ->
+  (exists fv, run_vm fv M = VError EAssert out) /\ (exists fn, run_nat RtoL fn pr = NFaulted NFAssert out).
+Proof. exact backends_agree_assert_typed. Qed.
+Print Assumptions C01_backends_agree_on_failed_assert_typed.
+
+(* the hypotheses are jointly satisfiable (depth_ok included: one terminating machine run bounds the frame depth of every
+   run of the module): the all-constructs program of VmSimExamples ... *)
+Example C01_backends_agree_typed_satisfiable : exists M,
+  wt ex_prog = true /\ compile_program ex_prog = Some M /\ small_program ex_prog /\ fuel_small 200 /\ depth_ok M /\
+  se_program ex_prog = true /\ cc_refuses ex_prog = false /\
+  run_ref 200 ex_prog = Done [104; 105; 10; 53; 53; 10]%N 10 /\
+  run_vm 5000 M = VDone [104; 105; 10; 53; 53; 10]%N 10 /\
+  run_nat RtoL 200 ex_prog = NDone [104; 105; 10; 53; 53; 10]%N 10.
+Proof. exact backends_agree_typed_satisfiable. Qed.
+Print Assumptions C01_backends_agree_typed_satisfiable.
+(* ... main returns (f2 (f1 4) 3 (< 1 2)) where f1 prints: the loud first argument is evaluated last by gcc's order ... *)
+Example C01_backends_agree_typed_loud_argument : exists M,
+  wt ex_loud_done = true /\ compile_program ex_loud_done = Some M /\ small_program ex_loud_done /\ fuel_small 20 /\
+  depth_ok M /\ se_program ex_loud_done = true /\ cc_refuses ex_loud_done = false /\
+  run_ref 20 ex_loud_done = Done [52; 10]%N 5 /\
+  run_vm 500 M = VDone [52; 10]%N 5 /\ run_nat RtoL 20 ex_loud_done = NDone [52; 10]%N 5.
+Proof. exact backends_agree_typed_loud_argument. Qed.
+(* ... and the same call with (< 2 1): f2's assertion fails after "4\n" was printed *)
+Example C01_backends_agree_on_failed_assert_typed_satisfiable : exists M,
+  wt ex_loud_assert = true /\ compile_program ex_loud_assert = Some M /\ small_program ex_loud_assert /\ fuel_small 20 /\
+  depth_ok M /\ se_program ex_loud_assert = true /\ cc_refuses ex_loud_assert = false /\
+  run_ref 20 ex_loud_assert = Faulted FAssert [52; 10]%N /\
+  run_vm 500 M = VError EAssert [52; 10]%N /\ run_nat RtoL 20 ex_loud_assert = NFaulted NFAssert [52; 10]%N.
+Proof. exact backends_agree_assert_typed_satisfiable. Qed.
+
+(* ---- integer -> text (int_to_string, to_string, cast_string, string interpolation of ints) ----
+   Both backends format through snprintf into a fixed buffer whose size is read from the current source
+   (tools/gen/gen_intfmt.py -> gen/IntFmt.v).  For EVERY 64-bit integer the text fits, so neither backend truncates and
+   both produce the decimal text of the reference semantics. *)
+From NV Require Import gen.IntFmt Back.IntFormat Back.IntFormatProofs.
+
+Theorem C01_int_text_at_most_20_chars : forall z, in64 z = true -> (length (print_Z z) <= 20)%nat.
+Proof. exact print_Z_length. Qed.
+Print Assumptions C01_int_text_at_most_20_chars.
+
+Theorem C01_int_to_string_backends_agree : forall z, in64 z = true ->
+  vm_int_to_string z = Some (native_int_to_string z) /\ native_int_to_string z = print_Z z.
+Proof. intros z H. split; [apply int_to_string_backends_agree | apply native_int_to_string_exact]; exact H. Qed.
+Print Assumptions C01_int_to_string_backends_agree.
+
+Theorem C01_native_int_buffer_in_bounds : native_int_buffer_ok = true.
+Proof. exact native_int_buffer_in_bounds. Qed.
+Print Assumptions C01_native_int_buffer_in_bounds.
+
+Example C01_int_text_bound_attained : length (print_Z (-9223372036854775808)) = 20%nat /\ in64 (-9223372036854775808) = true.
+Proof. exact print_Z_length_attained. Qed.
